@@ -10,7 +10,7 @@ CHECKS = {
          "Coq proof (round trip in both directions at value, body and message level; abstract laws) + byte-exact differential against the extracted specification encoder/decoder"),
  "C12": ("proof", "Coq theorems on the abstract header editor (read-back, deletion, all other fields keep value/presence/relative order, strip removes exactly the unknown fields, flags/serial/type/signature/body untouched for every edit sequence) and on re-serialisation (C12_fields_reserialise: the encoded field array of any well-formed field list decodes back to exactly that list); the byte-level C code is tied to the model by comparing the serialised bytes after every edit on generated messages in both byte orders with shuffled and unknown fields; and C12_wellformed: the re-serialisation of any well-formed edited message decodes to exactly that message",
          "Coq proof (editor laws) + byte-exact differential after every edit"),
- "C11": ("proof", "Coq theorem, unconditional (C11_chunking): for every stream and every partition the loader model produces the same messages and the same corruption verdict as for the unsplit stream; it rests on the proved locality of load_message on complete messages (C11_load_message_local, from locality lemmas for the whole body-validator model); also: framing reads only the fixed header, nothing after corruption, conservation of bytes; the C loader and the socket transport (handshake boundary) are tied by running every case chunked and unsplit",
+ "C11": ("proof", "Coq theorem, unconditional (C11_chunking): for every stream and every partition the loader model produces the same messages and the same corruption verdict as for the unsplit stream; it rests on the proved locality of load_message on complete messages (C11_load_message_local, from locality lemmas for the whole body-validator model); also: framing reads only the fixed header, nothing after corruption, conservation of bytes; the loader's READ LIMIT while descriptors are pending (_dbus_message_loader_get_buffer slow path) is modelled and proved: never 0 (C11_limit_progress), ends exactly at the fixed header / at the end of the message in progress (C11_limit_boundary), the transport loop under the limit terminates (C11_limited_total) and produces the same outcome as unlimited reading (C11_limited_equiv); the C loader and the socket transport (handshake boundary, descriptor-carrying messages written in pieces) are tied by running every case chunked and unsplit, with the limits asked for compared to the model",
          "Coq proof (induction over chunks with a stability lemma) + chunked/unsplit differential"),
  "C16": ("proof", "Coq theorems: the scanner models (character tables regenerated from the C macros) decide exactly the specification grammars for every byte string (interface, error name, member, path, well-known bus names; exact characterisation + refutation for unique names); UTF-8: model = Unicode Table 3-7 without NUL for every byte string (C16_utf8); signatures: the automaton model accepts exactly the grammar's strings and equals the specification whenever the grammar's array-nesting limit holds (C16_signature; F11 refuted as the only difference), printer/parser inverse; implementation tied to the model by ~1M enumerated cases",
          "Coq proof (model = grammar) + generated tables + exhaustive small-scope correspondence"),
